@@ -19,6 +19,17 @@ CHECKS = {
         "level_note": "Theorems are about the Lean model (enc/dec); the tie is differential over the catalogue and random trees (bounded depth / sizes). Floats are their 64-bit patterns throughout; maps are compared as unordered maps.",
         "assumptions": ["values nest at most 64 container levels and arrays stay below 64 MiB (the protocol's limits, hypotheses of the theorems)"],
     },
+    "C02": {
+        "id": "C02",
+        "engine": "wire",
+        "trusted_base": COMMON_TB + [
+            "modelled, not verified: std::str::from_utf8 (RFC 3629 validity, Utf8.valid; tied by corrupted / random byte strings), Vec / slices as lists, HashMap as the entry list in its iteration order (the order is an input; decoded maps are compared after last-wins deduplication and sorting)",
+            "the protocol glue of the driver and harness (type/value text syntax, canonicalisation of maps)",
+        ],
+        "level_text": "enc (Model/Wire.lean) is the D-Bus encoding as a recursive function of (byte order, absolute offset, type, value). Proved in Lean: (a) its shape is the specification's — every value starts with exactly the zero padding aligning its type relative to the body start, fixed-size types in the message byte order, booleans 0/1, strings/paths as 4-aligned u32 length + bytes + NUL with valid content, signatures u8 length + bytes + NUL, array length counting element bytes only with padding to the element alignment also when empty and <= 64 MiB, 8-aligned dict entries key-then-value, variants as signature then value, structs 8-aligned non-empty, descriptors as u32 index, layout depending on the offset only mod 8; (b) the marshalling MECHANISM of the code (append, pad_to_align from the buffer length, 4-byte length placeholder back-patched by insert_u32, the slice fast path writing length first and copying element bytes) computes exactly enc and fails exactly when enc has no value (marshalM_eq_enc, marshalSliceFastM_eq_enc); (c) only well-typed values have an encoding: NUL / invalid UTF-8 strings, invalid paths and signatures, out-of-range numbers, empty structs, invalid variant types are refused at every offset in both byte orders. Tied byte-for-byte to the typed Marshal impls (326-type catalogue x values x {LE,BE} x 8 offsets in a pre-filled MarshalContext) and to marshal_param (random Param trees up to the depth bound).",
+        "level_note": "Theorems are about the Lean model; that the Rust marshallers emit exactly enc is differential (catalogue + random trees, both byte orders, all 8 phases). Descriptors are modelled as their index (dup / fd tables are C11).",
+        "assumptions": ["the unencodable-value refusals of the typed API are exercised through the constructors that can produce them (&str with NUL, ObjectPath::new, SignatureWrapper::new); see C15 for rollback"],
+    },
     "C03": {
         "id": "C03",
         "engine": "wire",
